@@ -362,6 +362,15 @@ class Either:
         return bool(self.a(t)) or bool(self.b(t))
 
 
+def _cast_verdict(v, kind):
+    """A user-written condition may answer with any truthy / falsy value; numpy comparisons answer numpy.bool_."""
+    if kind == "npbool":
+        return np.bool_(v)
+    if kind == "int":
+        return int(v)
+    return v
+
+
 class ProbeGSC:
     """Pass-through probe around the global stop condition. Choice kind G: 'the condition
     holds from this consult on' (sticky => models an arbitrary monotone user condition)."""
@@ -391,7 +400,7 @@ class ProbeGSC:
         k = self.n
         self.n += 1
         self.w.emit("consult", tree, {"k": k, "verdict": v, "real": real})
-        return v
+        return _cast_verdict(v, self.w.desc.get("verdict_type"))
 
     def __str__(self):
         return f"ProbeGSC({self.inner})"
@@ -413,7 +422,7 @@ class ProbeLSC:
             if self.w.ch.choose("L", deme.id, 2) == 1:
                 v = True
         self.w.emit("lsc", None, {"deme": deme, "verdict": v, "real": real})
-        return v
+        return _cast_verdict(v, self.w.desc.get("verdict_type"))
 
     def __str__(self):
         return f"ProbeLSC({self.inner})"
@@ -531,7 +540,7 @@ class StubDeme3(StubDeme):
 def make_level(engine, problem, lsc, gens, box, desc):
     rng = box[:, 1] - box[:, 0]
     std = float(np.min(rng)) * desc.get("std_factor", 1.0 / 6.0)
-    mstd = float(np.mean(rng)) / 4.0
+    mstd = float(np.mean(rng)) * desc.get("mstd_factor", 0.25)
     pop = desc.get("pop", 6)
     if engine in SEA_FAMILY:
         cls = {"SEA": SEA, "SEAX": SEAWithCrossover, "GA": GAStyleSEA, "SEAA": SEAWithAdaptiveMutation, "MWEA": MWEA}[
@@ -541,7 +550,7 @@ def make_level(engine, problem, lsc, gens, box, desc):
         if engine == "MWEA":
             kw.update(election_group_size=desc.get("mwea_group", 4), k_elites=2)
         if engine == "SEAA":
-            kw.update(mutation_std_step=mstd / 8.0)
+            kw.update(mutation_std_step=mstd * desc.get("seaa_step_factor", 0.125))
         return EALevelConfig(
             ea_class=cls, generations=gens, problem=problem, pop_size=pop, lsc=lsc, sample_std_dev=std, **kw
         )
@@ -726,8 +735,41 @@ DEFAULTS = dict(
 )
 
 
+_CMA_LISTENER = [None]
+
+
+def _install_cma_probe():
+    """Library seam (cma, not pyhms): before every tell() ask the strategy whether it has already terminated itself.
+    stop() only reads the strategy's state, so the extra call does not perturb the run."""
+    import cma
+
+    cls = cma.CMAEvolutionStrategy
+    if getattr(cls.tell, "_hmsmc", False):
+        return
+    orig = cls.tell
+
+    def tell(self, *a, **k):
+        w = _CMA_LISTENER[0]
+        if w is not None and w.tree is not None:
+            try:
+                st = dict(self.stop())
+            except Exception:
+                st = {}
+            if st:
+                w.emit("cma_tell_after_stop", None, {"es": self, "stop": st})
+        return orig(self, *a, **k)
+
+    tell._hmsmc = True
+    cls.tell = tell
+
+
 class World:
     def __init__(self, desc: dict, deviations=(), shim=None):
+        if any(str(e).startswith("CMA") for e in desc.get("engines", ())):
+            _install_cma_probe()
+            _CMA_LISTENER[0] = self
+        else:
+            _CMA_LISTENER[0] = None
         d = dict(DEFAULTS)
         d.update(desc)
         self.desc = d
